@@ -82,6 +82,9 @@ def cases_utils(tier):
         yield "normalize/n%d" % n, {"what": "normalize", "n": n}
     for n, size in ((1, 1), (1, 3), (3, 3), (2, 3), (1, 0), (2, 4), (4, 4), (2, 6), (3, 6), (5, 6), (7, 6), (4, 2), (12, 12)):
         yield "broadcast_1d/n%d-size%d" % (n, size), {"what": "broadcast_1d", "n": n, "size": size}
+    # arrays of more than one dimension whose number of elements happens to be the wanted length: not a 1-D array of that length
+    for shape, size in (((3, 1), 3), ((1, 3), 3), ((2, 2), 4)):
+        yield "broadcast_1d/shape%s-size%d" % ("x".join(map(str, shape)), size), {"what": "broadcast_1d", "n": shape, "size": size}
     yield "immutable_array", {"what": "immutable_array"}
     yield "broadcast_arrays", {"what": "broadcast_arrays"}
     yield "check_enum_values", {"what": "check_enum"}
@@ -142,6 +145,15 @@ def scn_utils(T, case):
     if what == "broadcast_1d":
         f = get("broadcast_1d_array")
         n, size = case["n"], case["size"]
+        if isinstance(n, tuple):
+            a = T.real("a", n)
+            try:
+                r = f(a, "name", size)
+            except ValueError:
+                return
+            # (accepting it is not wrong in itself - if what comes back is the 1-D array of full length the clause asks for)
+            T.prove("C18.broadcast_1d.result_is_one_dimensional_of_full_length", tuple(r.shape) == (size,) and not r.flags.writeable, repr(tuple(r.shape)))
+            return
         a = T.real("a", (n,))
         try:
             r = f(a, "name", size)
